@@ -24,11 +24,27 @@ PYOP = {"add": lambda x, y: x + y, "sub": lambda x, y: x - y, "mul": lambda x, y
 
 
 def shards(tier, seed, scale=1.0):
-    return common.rand_shards(ID, tier, seed, scale, 4000, 150000)
+    out = common.rand_shards(ID, tier, seed, scale, 4000, 150000)
+    for d in out[:2]:
+        # in these processes the very first operations run with the options switched off (then they are restored)
+        d["options_off_first"] = True
+    return out
 
 
 def cases(desc):
     rng = common.rng_for(ID, desc)
+    if desc.get("options_off_first"):
+        da = __import__("vp.boot", fromlist=["boot"]).boot()
+        x = da.DimArray([1., 2.], axes=[[1, 2]], dims=['x'])
+        y = da.DimArray([1., 2.], axes=[[2, 3]], dims=['x'])
+        for opt in ('op.reindex', 'op.broadcast'):
+            da.rcParams[opt] = False            # written directly, as the documentation of the options shows
+            try:
+                x + y
+                x + x.newaxis('k')
+            except Exception:
+                pass
+            da.rcParams[opt] = True
     for i in range(desc["n"]):
         yield gen_case(rng)
 
@@ -110,6 +126,7 @@ def gen_pair(rng, small=False, dtypes=None):
         np.array([rng.randint(1, 9) for _ in range(int(np.prod([len(l) for l in sa["labels"]])) if sa["labels"] else 1)], dtype=float if dta == 'f' else np.int64).reshape(tuple(len(l) for l in sa["labels"]))
     sb["values"] = gen.values(rng, tuple(len(l) for l in sb["labels"]), dtb, lo=1, hi=hi) if not small else \
         np.array([rng.randint(1, 9) for _ in range(int(np.prod([len(l) for l in sb["labels"]])) if sb["labels"] else 1)], dtype=float if dtb == 'f' else np.int64).reshape(tuple(len(l) for l in sb["labels"]))
+    sa["history"], sb["history"] = rng.random() < 0.15, rng.random() < 0.15
     return sa, sb, pats
 
 
@@ -147,6 +164,17 @@ def check(case, ctx):
     if case["mode"] == "pair":
         ma, mb = model.from_spec(case["a"]), model.from_spec(case["b"])
         a, b = gen.build(case["a"]), gen.build(case["b"])
+        if case["a"].get("history") and case["b"].get("history"):
+            # the options have been switched off and on again (written directly into rcParams, as the documentation shows):
+            # the defaults are in force again
+            for opt in ('op.reindex', 'op.broadcast'):
+                da.rcParams[opt] = False
+                try:
+                    a + a
+                except Exception:
+                    pass
+                da.rcParams[opt] = True
+            ctx.outcomes['options-toggled-before'] += 1
         for label, fn, x, y in (("a %s b" % op, lambda: pyop(a, b), ma, mb), ("b %s a" % op, lambda: pyop(b, a), mb, ma)):
             label = "%s with a: dims=%r labels=%s; b: dims=%r labels=%s" % (label, ma.dims, codec.short(ma.labels, 160), mb.dims, codec.short(mb.labels, 160))
             res, exc = ctx.call(label, fn, operands=(a, b), meta='drop')
